@@ -75,9 +75,10 @@ def run(prop, tier, seed, replay=None):
             if msg:
                 violations.append((msg, toks))
             if model is not None:
-                if ci >= len(model) or model[ci] != impl[ci]:
+                proj = (lambda obs: [(r, st) for (r, st, q) in obs]) if prop == 'C10' else (lambda obs: obs)   # C10: op results + ranks/adjacency; C11: also all queries
+                if ci >= len(model) or proj(model[ci]) != proj(impl[ci]):
                     mo = model[ci] if ci < len(model) else []
-                    first = next((j for j, (a, b) in enumerate(zip(impl[ci], mo)) if a != b), min(len(impl[ci]), len(mo)))
+                    first = next((j for j, (a, b) in enumerate(zip(proj(impl[ci]), proj(mo))) if a != b), min(len(impl[ci]), len(mo)))
                     divergences.append((toks, first, impl[ci][first] if first < len(impl[ci]) else None, mo[first] if first < len(mo) else None))
     import shutil
     shutil.rmtree(work, ignore_errors=True)
